@@ -138,9 +138,11 @@ def part_argsort(ctx, res, N, use_model):
 
 # =========================================================================== part B: real wrappers, stub backend
 class FakeCS:
-    def __init__(self, names_sorted, X, phase_name, NP=1.0):
+    """composition set of the stub backend; `data` is the alphabetical answer it belongs to"""
+    def __init__(self, names_sorted, X, phase_name, NP=1.0, data=None):
         self.X = np.array(X, dtype=np.float64)
         self.NP = NP
+        self.data = data
         self.phase_record = types.SimpleNamespace(nonvacant_elements=list(names_sorted), phase_name=phase_name)
 
 
@@ -156,121 +158,130 @@ def backend_data(names_sorted, ref, xs_sorted, T, salt):
         dMuP=g.uniform(0.1, 1.0, (m, m)) + m * np.eye(m),
         invMob=A @ A.T + m * np.eye(m),
         Dtrace=10 ** g.uniform(-18, -14, n),
-        mob=10 ** g.uniform(-22, -18, n),
+        mob=10 ** g.uniform(-22, -18, n), mobP=10 ** g.uniform(-22, -18, n),
         mu1=g.uniform(-9e4, -1e4, n), mu2=g.uniform(-9e4, -1e4, n),
         XM=g.dirichlet(np.ones(n) * 2), XP=g.dirichlet(np.ones(n) * 2),
-        dg=float(g.uniform(-3e3, 8e3)),
+        dg=float(g.uniform(-3e3, 8e3)), npfrac=float(g.uniform(0.1, 0.9)),
     )
     return d
 
 
-def make_fake_therm(cls, elements_user):
-    th = object.__new__(cls)
-    th.elements = list(elements_user) + ['VA']
-    th.numElements = len(elements_user)
-    th.phases = ['MAT', 'PREC']
-    th.mobCallables = {'MAT': object(), 'PREC': object()}
-    th.diffCallables = {'MAT': None, 'PREC': None}
-    th.mobility_correction = {}
-    th._parameters = {}
-    th.vacancyPoorInterstitialSublattice = {}
-    th.orderedPhase = {'PREC': False}
-    th.db = None; th.phase_records = None; th.models = {}
-    th.pDens = 10; th.sampling_pDens = 10
-    th._compset_cache_df = {}; th._matrix_cs = None; th._points_cache = {}; th._diffusivity_cache = {}
-    th._compset_cache_curvature = {}
-    return th
+class Stub:
+    """a thermodynamics object whose wrapper code is kawin's but whose backend (pycalphad equilibrium, mobility
+    models, Hessians) is `backend_data`: an arbitrary function of the alphabetically ordered data"""
+    def __init__(self, elements_user, salt, log):
+        import kawin.thermo.Thermodynamics as TH
+        import kawin.thermo.MultiTherm as MT
+        import kawin.diffusion.DiffusionParameters as DP
+        from pycalphad import variables as v
+        self.TH, self.MT, self.DP, self.v = TH, MT, DP, v
+        self.elements = list(elements_user); self.salt = salt; self.log = log
+        self.ref = elements_user[0]
+        self.names_sorted = sorted(elements_user)
+        self.nonref_sorted = [e for e in self.names_sorted if e != self.ref]
+        self.refIndex = self.names_sorted.index(self.ref)
+        th = object.__new__(MT.MulticomponentThermodynamics)
+        th.elements = list(elements_user) + ['VA']
+        th.numElements = len(elements_user)
+        th.phases = ['MAT', 'PREC']
+        th.mobCallables = {'MAT': object(), 'PREC': object()}
+        th.diffCallables = {'MAT': None, 'PREC': None}
+        th.mobility_correction = {}
+        th._parameters = {}
+        th.vacancyPoorInterstitialSublattice = {}
+        th.orderedPhase = {'PREC': False}
+        th.db = None; th.phase_records = None; th.models = {}
+        th.pDens = 10; th.sampling_pDens = 10
+        th._compset_cache_df = {}; th._matrix_cs = None; th._points_cache = {}; th._diffusivity_cache = {}
+        th._compset_cache_curvature = {}
+        th._curvature_outputs = {'PREC': MT.CurvatureOutput()}
+        th.getLocalEq = self.getLocalEq; th.getEq = self.getEq
+        th._getCompositionSetsForDF = self.compsets; th._getCompositionSetsEq = self.compsets
+        th._getPrecCompositionSetSamplingDF = self.sampling
+        th._setupSubModels = lambda precPhase=None: (['PREC'], {})
+        self.th = th
+
+    def data_for(self, x, T, gExtra=0):
+        cond = self.TH.GeneralThermodynamics._getConditions(self.th, x, T, gExtra)       # the REAL dictionary construction
+        pairs = sorted((k.species.name, float(val)) for k, val in cond.items() if isinstance(k, self.v.MoleFraction))
+        self.log.setdefault('seen', []).append(pairs)
+        return backend_data(self.names_sorted, self.ref, [p[1] for p in pairs], T, self.salt)
+
+    def csM(self, d, NP=1.0):
+        return FakeCS(self.names_sorted, d['XM'], 'MAT', NP, d)
+
+    def csP(self, d, NP=1.0):
+        return FakeCS(self.names_sorted, d['XP'], 'PREC', NP, d)
+
+    def getLocalEq(self, x, T, gExtra=0, precPhase=None, composition_sets=None):
+        d = self.data_for(x, T, gExtra)
+        return types.SimpleNamespace(chemical_potentials=d['mu1'].copy(), x=[d['dg']]), [self.csM(d)]
+
+    def getEq(self, x, T, gExtra=0, precPhase=None):
+        d = self.data_for(x, T, gExtra)
+        css = [self.csM(d, d['npfrac']), self.csP(d, 1 - d['npfrac'])]
+        return types.SimpleNamespace(eq=types.SimpleNamespace(MU=d['mu2'].copy()[np.newaxis, :]), get_composition_sets=lambda: css)
+
+    def compsets(self, x, T, precPhase, *a, **k):
+        d = self.data_for(x, T)
+        return d['mu2'].copy(), self.csM(d), self.csP(d)
+
+    def sampling(self, x, T, mu, precPhase, cond=None):
+        d = self.data_for(x, T)
+        return d['dg'], self.csP(d)
+
+    @contextlib.contextmanager
+    def patched(self):
+        TH, MT, DP = self.TH, self.MT, self.DP
+        def f_invmob(mu, cs, refEl, *a, **k):
+            d = cs.data; return d['D'].copy(), d['dMuA'].copy(), d['invMob'].copy()
+        def f_tracer(cs, *a, **k):
+            return cs.data['Dtrace'].copy()
+        def f_dmudx(mu, cs, refEl):
+            return (cs.data['dMuA'] if cs.phase_record.phase_name == 'MAT' else cs.data['dMuP']).copy()
+        def f_mob(cs, *a, **k):
+            return (cs.data['mob'] if cs.phase_record.phase_name == 'MAT' else cs.data['mobP']).copy()
+        def f_loceq(db, comps, phases, cond, models, prx, composition_sets=None):
+            d = composition_sets[0].data
+            return types.SimpleNamespace(chemical_potentials=d['mu2'].copy(), x=[d['dg']]), [self.csP(d)]
+        saved = []
+        def patch(mod, name, f):
+            saved.append((mod, name, getattr(mod, name))); setattr(mod, name, f)
+        try:
+            for mod in (TH, MT):
+                patch(mod, 'inverseMobility', f_invmob); patch(mod, 'tracer_diffusivity', f_tracer); patch(mod, 'dMudX', f_dmudx)
+            patch(TH, 'local_equilibrium', f_loceq)
+            patch(DP, 'mobility_from_composition_set', f_mob)
+            yield self.th
+        finally:
+            for mod, name, f in reversed(saved):
+                setattr(mod, name, f)
 
 
 def run_wrappers(elements_user, x_user, T, salt, log):
     """run the real wrapper code with the stubbed backend; returns dict of results (user order)"""
-    import kawin.thermo.Thermodynamics as TH
-    import kawin.thermo.MultiTherm as MT
-    import kawin.diffusion.DiffusionParameters as DP
-    from pycalphad import variables as v
-    th = make_fake_therm(MT.MulticomponentThermodynamics, elements_user)
-    th._curvature_outputs = {'PREC': MT.CurvatureOutput()}
-    ref = elements_user[0]
-    names_sorted = sorted(elements_user)
-    nonref_sorted = [e for e in names_sorted if e != ref]
-    refIndex = names_sorted.index(ref)
-
-    def data_for(x, gExtra=0):
-        cond = TH.GeneralThermodynamics._getConditions(th, x, T, gExtra)       # the REAL dictionary construction
-        pairs = sorted((k.species.name, float(val)) for k, val in cond.items() if isinstance(k, v.MoleFraction))
-        log.setdefault('seen', []).append(pairs)
-        return backend_data(names_sorted, ref, [p[1] for p in pairs], T, salt)
-
-    def getLocalEq(x, T_, gExtra=0, precPhase=None, composition_sets=None):
-        d = data_for(x, gExtra)
-        return types.SimpleNamespace(chemical_potentials=d['mu1'].copy(), x=[d['dg']]), [FakeCS(names_sorted, d['XM'], 'MAT')]
-
-    def getEq(x, T_, gExtra=0, precPhase=None):
-        d = data_for(x, gExtra)
-        css = [FakeCS(names_sorted, d['XM'], 'MAT', 0.7), FakeCS(names_sorted, d['XP'], 'PREC', 0.3)]
-        return types.SimpleNamespace(eq=types.SimpleNamespace(MU=d['mu2'].copy()[np.newaxis, :]),
-                                     get_composition_sets=lambda: css)
-
-    def compsets(x, T_, precPhase, *a, **k):
-        d = data_for(x)
-        return d['mu2'].copy(), FakeCS(names_sorted, d['XM'], 'MAT'), FakeCS(names_sorted, d['XP'], 'PREC')
-
-    def sampling(x, T_, mu, precPhase, cond=None):
-        d = data_for(x)
-        return d['dg'], FakeCS(names_sorted, d['XP'], 'PREC')
-
-    th.getLocalEq = getLocalEq; th.getEq = getEq
-    th._getCompositionSetsForDF = compsets; th._getCompositionSetsEq = compsets
-    th._getPrecCompositionSetSamplingDF = sampling
-    th._setupSubModels = lambda precPhase=None: (['PREC'], {})
-    cur = {}
-
-    def f_invmob(mu, cs, refEl, *a, **k):
-        d = cur['d']; return d['D'].copy(), d['dMuA'].copy(), d['invMob'].copy()
-
-    def f_tracer(cs, *a, **k):
-        return cur['d']['Dtrace'].copy()
-
-    def f_dmudx(mu, cs, refEl):
-        d = cur['d']; return (d['dMuA'] if cs.phase_record.phase_name == 'MAT' else d['dMuP']).copy()
-
-    def f_mob(cs, *a, **k):
-        return cur['d']['mob'].copy()
-
-    def f_loceq(db, comps, phases, cond, models, prx, composition_sets=None):
-        d = cur['d']
-        return types.SimpleNamespace(chemical_potentials=d['mu2'].copy(), x=[d['dg']]), [FakeCS(names_sorted, d['XP'], 'PREC')]
-
-    saved = []
-    def patch(mod, name, f):
-        saved.append((mod, name, getattr(mod, name))); setattr(mod, name, f)
+    st = Stub(elements_user, salt, log)
+    DP = st.DP
+    names_sorted, nonref_sorted, refIndex = st.names_sorted, st.nonref_sorted, st.refIndex
     out = {}
-    try:
-        for mod in (TH, MT):
-            patch(mod, 'inverseMobility', f_invmob); patch(mod, 'tracer_diffusivity', f_tracer); patch(mod, 'dMudX', f_dmudx)
-        patch(TH, 'local_equilibrium', f_loceq)
-        patch(DP, 'mobility_from_composition_set', f_mob)
+    with st.patched() as th:
         x = np.array(x_user, dtype=float)
-        cur['d'] = d = data_for(x)       # the data every stub answers with for this (names, x, T)
+        d = st.data_for(x, T)
         out['D'] = np.array(th.getInterdiffusivity(x, T))
         out['tracer'] = np.array(th.getTracerDiffusivity(x, T))
         for meth in ('approximate', 'curvature', 'sampling', 'tangent'):
             th.setDrivingForceMethod(meth)
-            th._compset_cache_df = {'PREC': ['cached']} if meth == 'tangent' else {}
+            th._compset_cache_df = {'PREC': [st.csP(d)]} if meth == 'tangent' else {}
             th._matrix_cs = None
             dg, xp = th.getDrivingForce(x, T, precPhase='PREC')
             out['dg_' + meth] = float(dg); out['xp_' + meth] = np.atleast_1d(np.array(xp, dtype=float))
         ca, cb = th._interfacialComposition(x, T, 100.0, 'PREC')
         out['ic_a'] = np.array(ca); out['ic_b'] = np.array(cb)
-        cd = data_for(x)
-        co = th._curvatureFactorFromEq(cd['mu2'].copy(), FakeCS(names_sorted, cd['XM'], 'MAT'), FakeCS(names_sorted, cd['XP'], 'PREC'), 'PREC')
+        co = th._curvatureFactorFromEq(d['mu2'].copy(), st.csM(d), st.csP(d), 'PREC')
         out['dc'] = np.array(co.dc); out['mc'] = float(co.mc); out['gba'] = np.array(co.gba); out['beta'] = float(co.beta)
         out['ceq_a'] = np.array(co.c_eq_alpha); out['ceq_b'] = np.array(co.c_eq_beta)
         md = DP.computeMobility(th, x, T)
         out['mob'] = np.array(md.mobility[0]); out['mob_mu'] = np.array(md.chemical_potentials[0])
-    finally:
-        for mod, name, f in reversed(saved):
-            setattr(mod, name, f)
     # alphabetical answers of the backend for the model side (computed independently of the wrapper code)
     xM = np.delete(d['XM'], refIndex); xP = np.delete(d['XP'], refIndex)
     xs = np.array([p[1] for p in log['seen'][0]])
@@ -284,7 +295,7 @@ def run_wrappers(elements_user, x_user, T, salt, log):
         mc=1 / den, beta=1 / float(np.sum((d['XP'] - d['XM']) ** 2 / (d['Dtrace'] * d['XM']))),
         dg_approximate=float(np.sum(d['XP'] * d['mu1']) - np.sum(d['XP'] * d['mu2'])),
         dg_curvature=float((xs - xM) @ d['dMuA'] @ xbar), dg_sampling=d['dg'], dg_tangent=d['dg'],
-        mobM=d['mob'] * x_to_u_frac(d['XM'], names_sorted, interstitials), mobP=d['mob'] * x_to_u_frac(d['XP'], names_sorted, interstitials),
+        mobM=d['mob'] * x_to_u_frac(d['XM'], names_sorted, interstitials), mobP=d['mobP'] * x_to_u_frac(d['XP'], names_sorted, interstitials),
         mob_mu=d['mu2'], xs=xs, nonref_sorted=nonref_sorted, names_sorted=names_sorted,
     )
     return out, alpha
@@ -412,6 +423,158 @@ def part_wrappers(ctx, res, N, use_model):
             res.disagree('wrapVecFull vs computeMobility', desc, o1['mob'][0].tolist(), mfull)
 
 
+# =========================================================================== part B2: diffusion-side wrappers, stub backend
+HFUNCS = ['WIENER_UPPER', 'WIENER_LOWER', 'HASHIN_UPPER', 'HASHIN_LOWER', 'LABYRINTH']
+
+
+def gen_diffusion_case(r):
+    c = gen_wrapper_case(r)
+    n = len(c['elements'])
+    prof = {}
+    for e in c['elements'][1:]:
+        kind = r.choice(['linear', 'linear', 'step', 'single'])
+        a, b = r.uniform(0.02, 0.8 / n), r.uniform(0.02, 0.8 / n)
+        prof[e] = (kind, a, b, r.uniform(-0.3, 0.3))
+    bcs = {}
+    for e in c['elements'][1:]:
+        for side in ('left', 'right'):
+            k = r.choice(['default', 'default', 'flux', 'composition'])
+            if k == 'flux':
+                bcs[(e, side)] = ('flux', r.uniform(-1e-9, 1e-9))
+            elif k == 'composition':
+                bcs[(e, side)] = ('composition', r.uniform(0.02, 0.8 / n))
+    c.update(profile=prof, bcs=bcs, N=r.choice([4, 5, 7]), hfunc=r.choice(HFUNCS), eps=r.choice([0.0, 0.01, 0.05]),
+             lab=r.choice([1, 1.5, 2]), part='diffusion-stub')
+    return c
+
+
+def run_diffusion_stub(c, elements_user, log):
+    """the REAL diffusion-side code (profile / boundary-condition mapping, computeMobility, computeHomogenizationFunction,
+    _computeSingleMobility, getFluxes / getdXdt / getDt of both diffusion models) on the stubbed backend.
+    Everything is returned keyed by ELEMENT NAME."""
+    from kawin.diffusion import SinglePhaseModel, HomogenizationModel
+    from kawin.diffusion.DiffusionParameters import CompositionProfile, BoundaryConditions, computeMobility, _computeSingleMobility
+    from kawin.diffusion.HomogenizationParameters import HomogenizationParameters, computeHomogenizationFunction
+    st = Stub(elements_user, c['salt'], log)
+    sol = elements_user[1:]
+    T = c['T']
+
+    def mk(cls, phases, **kw):
+        cp = CompositionProfile()
+        for e in sol:
+            kind, a, b, z0 = c['profile'][e]
+            if kind == 'linear':
+                cp.addLinearCompositionStep(e, a, b)
+            elif kind == 'step':
+                cp.addStepCompositionStep(e, a, b, z0)
+            else:
+                cp.addLinearCompositionStep(e, a, a); cp.addSingleCompositionStep(e, b, z0)
+        bc = BoundaryConditions()
+        for (e, side), (k, val) in c['bcs'].items():
+            bc.setBoundaryCondition(side, k, val, e)
+        m = cls([-1.0, 1.0], c['N'], list(elements_user), phases, thermodynamics=st.th, compositionProfile=cp, boundaryConditions=bc, **kw)
+        m.setTemperature(T)
+        return m
+
+    out = {}
+    by = lambda arr, names: {e: np.array(arr[i], dtype=float) for i, e in enumerate(names)}
+    with st.patched() as th:
+        sp = mk(SinglePhaseModel, ['MAT'])
+        sp.setup()
+        out['x0'] = by(sp.x, sol)
+        fl, dt = sp.getFluxes()
+        out['sp_flux'] = by(fl, sol); out['sp_dt'] = float(dt)
+        t, x = sp.getCurrentX(); dxdt = sp.getdXdt(t, x)
+        out['sp_dxdt'] = by(dxdt[0], sol); out['sp_getDt'] = float(sp.getDt(dxdt))
+        hp = HomogenizationParameters(getattr(HomogenizationParameters, c['hfunc']), eps=c['eps'])
+        hp.setLabyrinthFactor(c['lab'])
+        hm = mk(HomogenizationModel, ['MAT', 'PREC'], homogenizationParameters=hp)
+        hm.setup()
+        fl, dt = hm.getFluxes()
+        out['hm_flux'] = by(fl, sol); out['hm_dt'] = float(dt)
+        t, x = hm.getCurrentX(); dxdt = hm.getdXdt(t, x)
+        out['hm_dxdt'] = by(dxdt[0], sol); out['hm_getDt'] = float(hm.getDt(dxdt))
+        xs = hm.x.T.copy()
+        amob, mu = computeHomogenizationFunction(th, xs, T, hp)
+        out['h_mob'] = by(np.atleast_2d(amob).T, elements_user); out['h_mu'] = by(np.atleast_2d(mu).T, elements_user)
+        md = computeMobility(th, xs, T)
+        out['m_mu'] = by(np.array(md.chemical_potentials).T, elements_user)
+        out['m_mob'] = by(np.transpose(np.array(md.mobility), (2, 0, 1)), elements_user)     # per element: (node, phase)
+        # sibling consistency: the homogenized mobility is the homogenization function of computeMobility's output
+        ref = np.array([hp.homogenizationFunction(np.array(md.mobility[i]), np.array(md.phase_fractions[i]), labyrinth_factor=hp.labyrinthFactor)
+                        for i in range(len(xs))])
+        out['h_mob_from_m'] = by(ref.T, elements_user)
+        unsort = np.argsort(np.argsort(th.elements[:-1]))
+        one = _computeSingleMobility(th, xs[0], T, unsort)
+        out['single_mu'] = by(one.chemical_potentials, elements_user)
+        # what the backend answers at node 0, by element name (independent of all wrapper code)
+        d = st.data_for(xs[0], T)
+        out['backend_mu0'] = {e: float(d['mu2'][st.names_sorted.index(e)]) for e in elements_user}
+        out['backend_mob0'] = {e: float(d['mob'][st.names_sorted.index(e)]) for e in elements_user}
+        out['backend_XM0'] = {e: float(d['XM'][st.names_sorted.index(e)]) for e in elements_user}
+        out['mu2_sorted0'] = d['mu2']
+    return out
+
+
+def part_diffusion_stub(ctx, res, N, use_model):
+    vlib.use_repo()
+    from kawin.thermo.Mobility import interstitials
+    cases, lines = [], []
+    for _ in range(N):
+        s = ctx.rng.getrandbits(48)
+        c = gen_diffusion_case(random.Random(s)); c['seed'] = s
+        els, p = c['elements'], c['perm']
+        els2 = [els[0]] + [els[1:][i] for i in p]
+        with warnings.catch_warnings():
+            warnings.simplefilter('ignore')
+            o1 = run_diffusion_stub(c, els, {}); o2 = run_diffusion_stub(c, els2, {})
+        cases.append((c, els2, o1, o2))
+        lines.append('perm.ref %s %s %s %s' % (els[0], enc_names(els[1:]), enc_list(c['x']), enc_list(o1['mu2_sorted0'])))
+    model = vlib.run_driver(PROP, lines) if use_model else None
+    for k, (c, els2, o1, o2) in enumerate(cases):
+        els = c['elements']
+        srt = np.argsort(els).tolist(); uns = np.argsort(srt).tolist()
+        res.case(('diffusion-stub', tuple(els), tuple(c['perm'])), srt != uns)
+        res.count('B2:elements=%d' % len(els)); res.count('B2:sort!=unsort(full list)' if srt != uns else 'B2:sort==unsort(full list)')
+        desc = {kk: (vv if kk not in ('profile', 'bcs') else str(vv)) for kk, vv in c.items()}
+        # ---- direct oracle: by element NAME nothing depends on the listing
+        scal = ['sp_dt', 'sp_getDt', 'hm_dt', 'hm_getDt']
+        for q in scal:
+            if not close(o1[q], o2[q], 1e-9):
+                res.violate('elem-order:diffusion:' + q, 'time step %s of the diffusion model depends on the listing order of the elements' % q, desc, o2[q], o1[q])
+        for q in ('x0', 'sp_flux', 'sp_dxdt', 'hm_flux', 'hm_dxdt', 'h_mob', 'h_mu', 'm_mu', 'm_mob', 'single_mu'):
+            sc = max(float(np.max(np.abs(v_))) for v_ in o1[q].values()) if q in ('sp_flux', 'sp_dxdt', 'hm_flux', 'hm_dxdt') else 0.0
+            for e in o1[q]:
+                a, b = o1[q][e], o2[q][e]
+                if a.shape != b.shape or np.max(np.abs(a - b) - 1e-9 * np.maximum(np.maximum(np.abs(a), np.abs(b)), sc), initial=-1) > 0:
+                    res.violate('elem-order:diffusion:' + q, '%s of element %s (by name) depends on the listing order of the elements' % (q, e), dict(desc, listing=els2),
+                                np.asarray(b).tolist(), np.asarray(a).tolist()); break
+        # ---- independent references on the first listing
+        for e in els:
+            if not close(o1['h_mu'][e][0], o1['backend_mu0'][e], 1e-12) or not close(o1['m_mu'][e][0], o1['backend_mu0'][e], 1e-12) \
+                    or not close(float(o1['single_mu'][e]), o1['backend_mu0'][e], 1e-12):
+                res.violate('elem-order:diffusion:chemical-potential', 'chemical potential returned for %s is not the backend value of %s' % (e, e), desc,
+                            [float(o1['h_mu'][e][0]), float(o1['m_mu'][e][0]), float(o1['single_mu'][e])], o1['backend_mu0'][e]); break
+        usum = sum(v_ for e, v_ in o1['backend_XM0'].items() if e not in interstitials)
+        for e in els:
+            want = o1['backend_mob0'][e] * o1['backend_XM0'][e] / usum
+            if not close(o1['m_mob'][e][0, 0], want, 1e-9):
+                res.violate('elem-order:diffusion:mobility', 'computeMobility value for %s is not mobility x u-fraction of %s' % (e, e), desc, float(o1['m_mob'][e][0, 0]), want); break
+        for e in els:
+            if rel(o1['h_mob'][e], o1['h_mob_from_m'][e]) > 1e-9 or rel(o1['h_mu'][e], o1['m_mu'][e]) > 1e-12:
+                res.violate('elem-order:diffusion:homogenization-vs-computeMobility', 'computeHomogenizationFunction and computeMobility disagree for element %s' % e, desc,
+                            o1['h_mob'][e].tolist(), o1['h_mob_from_m'][e].tolist()); break
+        # ---- model: wrapVecFull with the backend answering the alphabetical chemical potentials
+        if model is not None:
+            t = Toks(model[k])
+            if not t.ok:
+                res.disagree('perm.ref model error', desc, 'ok', t.err); continue
+            t.flts(); t.flts(); mfull = t.flts()
+            got = [float(o1['h_mu'][e][0]) for e in els]
+            if mfull != got:
+                res.disagree('wrapVecFull vs computeHomogenizationFunction chemical potentials', desc, got, mfull)
+
+
 # =========================================================================== part C: step rules and site competition
 def gen_step_case(r):
     P = r.choice([1, 2, 2, 2, 3, 3, 3, 4])
@@ -472,7 +635,7 @@ def gen_step_case(r):
 _PP = {}
 
 
-def build_model(case, order):
+def build_model(case, order, elements=('X',)):
     """a real PrecipitateModel with the phases listed in `order` and the hand-set state of `case`"""
     from kawin.precipitation import PrecipitateModel, VolumeParameter
     from kawin.precipitation.PrecipitationParameters import PrecipitationData
@@ -486,7 +649,7 @@ def build_model(case, order):
             _PP[p['name']] = PrecipitateParameters(p['name'])
         _PP[p['name']].parentPhases = []
         pps.append(_PP[p['name']])
-    m = PrecipitateModel(precipitateParameters=pps, elements=['X'])
+    m = PrecipitateModel(precipitateParameters=pps, elements=list(elements))
     m.setVolumeAlpha(c['vmAlpha'], VolumeParameter.MOLAR_VOLUME, 4)
     m.setNucleationDensity(grainSize=c['grainSize'], aspectRatio=c['aspect'], dislocationDensity=c['disl'], bulkN0=c['bulkN0'])
     for p in phs:
@@ -688,6 +851,141 @@ def part_steps(ctx, res, N, use_model, max_perms=6):
                 res.disagree('_calcNucleationSites ' + p['name'], desc, a, b)
 
 
+# =========================================================================== part C2: the per-phase update of a step
+def gfun(ph, bounds):
+    """growth rate of a phase as a function of its OWN data only (stands for _growthRate: an arbitrary per-phase backend)"""
+    b = np.asarray(bounds, dtype=float)
+    return ph['gamp'] * (1.0 / ph['grc'] - 1.0 / b) / b
+
+
+def gen_update_case(r):
+    case = gen_step_case(r)
+    P = r.choice([2, 2, 3, 3, 4])
+    while len(case['phases']) < P:
+        extra = gen_step_case(r)['phases']
+        for q in extra:
+            if len(case['phases']) < P:
+                q = dict(q, name='P%d' % len(case['phases']), parents=[]); case['phases'].append(q)
+    c = case['common']
+    if c['n'] == 0:
+        c['n'] = 1; c['times'] = [0.0, r.uniform(0.5, 5)]
+    if r.random() < 0.8:
+        c['Tcur'] = c['Tprev']            # isothermal step: the PSD rule is active
+    c['checks'] = [True] * 5
+    for ph in case['phases']:
+        ph['parents'] = []
+        bins = r.choice([12, 16, 24]); ph['bins'] = bins
+        ph['cMin'] = r.choice([1e-10, 2e-10]); ph['cMax'] = r.choice([6e-9, 1e-8])
+        size = np.linspace(ph['cMin'], ph['cMax'], bins + 1); size = 0.5 * (size[1:] + size[:-1])
+        kind = r.choice(['lognormal', 'lognormal', 'lognormal', 'tail-full', 'small', 'empty'])
+        N = 10 ** r.uniform(18, 24)
+        if kind == 'empty':
+            psd = np.zeros(bins)
+        else:
+            r0 = {'lognormal': r.uniform(0.15, 0.6), 'tail-full': r.uniform(0.7, 0.95), 'small': r.uniform(0.03, 0.1)}[kind] * ph['cMax']
+            sg = r.uniform(0.2, 0.5) if kind != 'small' else 0.15
+            w = 1 / (size * sg * np.sqrt(2 * np.pi)) * np.exp(-np.log(size / r0) ** 2 / (2 * sg ** 2))
+            psd = N * w / np.sum(w)
+        ph['psd'] = psd.tolist()
+        ph['xnew'] = (psd * np.random.default_rng(r.getrandbits(32)).uniform(0.8, 1.2, bins)).tolist()
+        ph['gamp'] = 10 ** r.uniform(-20, -17); ph['grc'] = r.choice([0.2, 0.5, 2.0]) * ph['cMax'] * r.uniform(0.3, 1.0)
+        if kind == 'small' or r.random() < 0.15:
+            ph['grc'] = 10 * ph['cMax']       # everything dissolves: adjustSizeClassesEuler(checkDissolution=True)
+        ph['growth'] = gfun(ph, np.linspace(ph['cMin'], ph['cMax'], bins + 1)).tolist()
+        ph['rdf'] = r.choice([0, 0, 0, 1, 3]); ph['dissIdx'] = r.choice([0, 0, 2])
+        ph['dG'] = -1e7 if r.random() < 0.08 else 1e8
+        ph['kinds'] = (kind,)
+    return case
+
+
+def run_update(case, order):
+    """hand-set multi-phase model -> REAL _updateParticleSizeDistribution -> per-phase state (by name) and the step rules"""
+    m, phs = build_model(case, order, elements=('X', 'Y'))
+    P = len(phs); n = m.pData.n
+    m.PSDXalpha = [None] * P; m.PSDXbeta = [None] * P
+    for j, p in enumerate(phs):
+        m.RdrivingForceIndex[j] = p['rdf']
+        m.eqAspectRatio[j] = np.ones(p['bins'] + 1)
+    # like the real _growthRate, a phase whose growth calculation failed (negative driving force, no equilibrium) keeps self.growth[p]
+    m._growthRate = lambda Y: ([(m.growth[j] if p['dG'] < 0 else gfun(p, m.PBM[j].PSDbounds)) for j, p in enumerate(phs)], Y)
+    x = [np.array(p['xnew'], dtype=float) for p in phs]
+    m._updateParticleSizeDistribution(float(m.pData.time[n]), x)
+    st = {}
+    for j, p in enumerate(phs):
+        st[p['name']] = dict(PSD=np.array(m.PBM[j].PSD, dtype=float), bounds=np.array(m.PBM[j].PSDbounds, dtype=float), bins=int(m.PBM[j].bins),
+                             dissolutionIndex=int(m.dissolutionIndex[j]), RdrivingForceIndex=int(m.RdrivingForceIndex[j]),
+                             growth=np.array(m.growth[j], dtype=float), eqAspectRatio=np.array(m.eqAspectRatio[j], dtype=float))
+    cs = m.constraints
+    dtPrev = m.pData.time[n] - m.pData.time[n - 1]; dtMax = m.finalTime - m.pData.time[n]
+    VmB = [pp.volume.Vm for pp in m.precipitateParameters]; nucP = [pp.nucleation for pp in m.precipitateParameters]
+    rules = dict(
+        dtPSD=float(cs.computeDTfromPSD(n, m.pData.temperature, m.PBM, m.growth, m.dissolutionIndex, m.phases, dtMax)),
+        dtVol=float(cs.computeDTfromVolume(n, m.pData.nucRate, m.pData.Rnuc, m.PBM, m.growth, m.matrixParameters.volume.Vm, VmB, nucP, m.phases, dtMax)),
+        dt=float(m.getDt(None)))
+    pbmdt = {p['name']: float(m.PBM[j].getDTEuler(dtMax, m.growth[j], m.dissolutionIndex[j])) for j, p in enumerate(phs)}
+    return st, rules, pbmdt
+
+
+FIELDS = ['bins', 'dissolutionIndex', 'RdrivingForceIndex', 'PSD', 'bounds', 'growth', 'eqAspectRatio']
+
+
+def state_diff(a, b):
+    for f in FIELDS:
+        va, vb = a[f], b[f]
+        if isinstance(va, int):
+            if va != vb:
+                return f, va, vb
+        elif va.shape != vb.shape or rel(va, vb) > 1e-12:
+            return f, va.tolist()[:8], vb.tolist()[:8]
+    return None
+
+
+def part_update(ctx, res, N, use_model=False, max_perms=4):
+    vlib.use_repo()
+    for _ in range(N):
+        s = ctx.rng.getrandbits(48)
+        case = gen_update_case(random.Random(s)); case['seed'] = s
+        P = len(case['phases'])
+        perms = list(itertools.permutations(range(P)))
+        # always include the reversed listing and a rotation (every phase is first / last in some listing)
+        want = [perms[0], tuple(reversed(range(P))), tuple(list(range(1, P)) + [0])]
+        rest = [q for q in perms if q not in want]
+        random.Random(s + 1).shuffle(rest)
+        perms = list(dict.fromkeys(want + rest))[:max_perms]
+        with warnings.catch_warnings():
+            warnings.simplefilter('ignore')
+            outs = [(o, run_update(case, o)) for o in perms]
+            singles = {case['phases'][i]['name']: run_update(case, (i,)) for i in range(P)}
+        base_st, base_rules, base_pbm = outs[0][1]
+        changed = [nm for nm, st_ in base_st.items() if st_['bins'] != [p for p in case['phases'] if p['name'] == nm][0]['bins']]
+        ndiss = sum(1 for st_ in base_st.values() if st_['dissolutionIndex'] > 0)
+        res.case(('update', P, case['seed']), ndiss >= 1)
+        res.count('C2:phases=%d' % P); res.count('C2:phases-with-dissolution-index>0', ndiss); res.count('C2:re-meshed-phases', len(changed))
+        if base_rules['dtPSD'] == base_rules['dt']:
+            res.count('C2:PSD-rule-binding')
+        for p in case['phases']:
+            res.count('C2:psd-' + p['kinds'][0])
+        desc = dict(part='update', seed=s, phases=[p['name'] + ':' + p['kinds'][0] for p in case['phases']], n=case['common']['n'])
+        # ---- direct oracle: by phase NAME the state written by the update and the following getDt do not depend on the listing
+        for o, (st_, rules, pbm) in outs[1:]:
+            d2 = dict(desc, listing=[case['phases'][i]['name'] for i in o])
+            for nm in base_st:
+                df = state_diff(base_st[nm], st_[nm])
+                if df:
+                    res.violate('phase-order:update:' + df[0], '_updateParticleSizeDistribution: %s of phase %s depends on the order in which the phases are listed' % (df[0], nm), d2, df[2], df[1])
+                if not close(pbm[nm], base_pbm[nm], 1e-12):
+                    res.violate('phase-order:update:getDTEuler', 'PSD step limit of phase %s after the update depends on the listing order' % nm, d2, pbm[nm], base_pbm[nm])
+            for q in ('dtPSD', 'dtVol', 'dt'):
+                if not close(rules[q], base_rules[q], 1e-12):
+                    res.violate('phase-order:getDt-after-update', '%s after the real per-phase update depends on the order in which the phases are listed' % q, d2, rules[q], base_rules[q])
+        # ---- the update is `map` of a per-phase function: each phase ends in the state it reaches when it is the only phase
+        for nm, (st1, _, pbm1) in singles.items():
+            df = state_diff(st1[nm], base_st[nm])
+            if df:
+                res.violate('phase-order:update-vs-single-phase:' + df[0],
+                            '_updateParticleSizeDistribution: %s of phase %s in the multi-phase model differs from the same phase updated alone' % (df[0], nm), desc, df[2], df[1])
+
+
 # =========================================================================== part D: monitored, real pycalphad
 _TH = {}
 
@@ -800,6 +1098,68 @@ def part_diffusion(ctx, res, steps):
     if rel(x1, x2[::-1]) > 1e-8 or np.max(np.abs(d1 - d2[::-1])) > 1e-8 * np.max(np.abs(d1)):
         res.violate('elem-order:diffusion-profile', 'ternary diffusion run: profiles of the re-listed elements are not the re-listed profiles', desc,
                     float(rel(x1, x2[::-1])), 1e-8)
+
+
+def part_homogenization_real(ctx, res, system, N=6, steps=0):
+    """paired REAL homogenization-path evaluations with a listing whose sorting permutation is a 3-cycle
+    (FE,NI,CR / NI,AL,CR) against an involutive one (FE,CR,NI / NI,CR,AL): by element name everything agrees"""
+    vlib.use_repo()
+    from kawin.tests import datasets
+    from kawin.thermo import GeneralThermodynamics
+    from kawin.diffusion import HomogenizationModel
+    from kawin.diffusion.DiffusionParameters import CompositionProfile, computeMobility
+    from kawin.diffusion.HomogenizationParameters import HomogenizationParameters, computeHomogenizationFunction
+    r = random.Random(ctx.rng.getrandbits(48))
+    if system == 'FECRNI':
+        db, ref, sols, T = datasets.FECRNI_DB, 'FE', (['NI', 'CR'], ['CR', 'NI']), 1100 + 273.15
+        ends = {'CR': (r.uniform(0.22, 0.28), r.uniform(0.38, 0.44)), 'NI': (r.uniform(0.05, 0.08), r.uniform(0.24, 0.3))}
+    else:
+        db, ref, sols, T = datasets.NICRAL_TDB, 'NI', (['AL', 'CR'], ['CR', 'AL']), 1200 + 273.15
+        ends = {'CR': (r.uniform(0.05, 0.1), r.uniform(0.25, 0.36)), 'AL': (r.uniform(0.04, 0.06), r.uniform(0.06, 0.09))}
+    hf = r.choice(HFUNCS); eps = r.choice([0.01, 0.05])
+    outs = []
+    with warnings.catch_warnings():
+        warnings.simplefilter('ignore')
+        for sol in sols:
+            key = 'gen-%s-%s' % (system, '-'.join(sol))
+            if key not in _TH:
+                _TH[key] = GeneralThermodynamics(db, [ref] + sol, ['FCC_A1', 'BCC_A2'])
+            th = _TH[key]; th.clearCache()
+            cp = CompositionProfile()
+            for e in sol:
+                cp.addLinearCompositionStep(e, *ends[e])
+            hp = HomogenizationParameters(getattr(HomogenizationParameters, hf), eps=eps)
+            m = HomogenizationModel([-5e-4, 5e-4], N, [ref] + sol, ['FCC_A1', 'BCC_A2'], compositionProfile=cp, homogenizationParameters=hp)
+            m.setTemperature(T); m.setThermodynamics(th); m.constraints.maxCompositionChange = 0.002
+            m.setup()
+            xs = m.x.T.copy()
+            amob, mu = computeHomogenizationFunction(th, xs, T, hp)
+            md = computeMobility(th, xs, T)
+            fl, dt = m.getFluxes()
+            o = dict(h_mob={e: np.array(amob)[:, i] for i, e in enumerate([ref] + sol)}, h_mu={e: np.array(mu)[:, i] for i, e in enumerate([ref] + sol)},
+                     m_mu={e: np.array(md.chemical_potentials)[:, i] for i, e in enumerate([ref] + sol)},
+                     flux={e: np.array(fl)[i] for i, e in enumerate(sol)}, dt=float(dt))
+            if steps:
+                m.solve(dt * steps, verbose=False)
+                o['t'] = float(m.t); o['prof'] = {e: np.array(m.getX(e)) for e in [ref] + sol}
+            outs.append(o)
+    desc = dict(part='homogenization-real', system=system, listings=[[ref] + s_ for s_ in sols], ends=ends, hfunc=hf, eps=eps)
+    a, b = outs
+    res.case(('homogenization-real', system, hf, tuple(sorted(ends.items()))), True); res.count('D:homogenization-real-' + system)
+    if not close(a['dt'], b['dt'], 1e-6):
+        res.violate('elem-order:homogenization:dt', 'real backend: time step of the homogenization model depends on the listing of the elements', desc, b['dt'], a['dt'])
+    for q in ('h_mob', 'h_mu', 'm_mu', 'flux') + (('prof',) if steps else ()):
+        sc = max(float(np.max(np.abs(v_))) for v_ in a[q].values()) if q == 'flux' else 0.0
+        for e in a[q]:
+            if np.max(np.abs(a[q][e] - b[q][e]) - 1e-6 * np.maximum(np.maximum(np.abs(a[q][e]), np.abs(b[q][e])), sc)) > 0:
+                res.violate('elem-order:homogenization:' + q, 'real backend: %s of element %s (by name) depends on the listing of the elements' % (q, e), desc,
+                            b[q][e].tolist(), a[q][e].tolist()); break
+    for e in a['h_mu']:
+        if rel(a['h_mu'][e], a['m_mu'][e]) > 1e-9:
+            res.violate('elem-order:homogenization:vs-computeMobility', 'real backend: computeHomogenizationFunction and computeMobility return different chemical potentials for %s' % e, desc,
+                        a['h_mu'][e].tolist(), a['m_mu'][e].tolist()); break
+    if steps and not close(a['t'], b['t'], 1e-6):
+        res.violate('elem-order:homogenization:time', 'real backend: homogenization runs end at different times', desc, b['t'], a['t'])
 
 
 HIST = ['nucRate', 'volFrac', 'Rcrit', 'Ravg', 'precipitateDensity', 'drivingForce', 'Gcrit', 'impingement']
@@ -968,8 +1328,10 @@ def corr(ctx, oracle_only=False, scale=1):
     t0 = time.time()
     part_argsort(ctx, res, ctx.n(300, 6000) * scale, use_model)
     part_wrappers(ctx, res, ctx.n(200, 3000) * scale, use_model)
+    part_diffusion_stub(ctx, res, ctx.n(80, 1500) * scale, use_model)
     t1 = time.time()
     part_steps(ctx, res, ctx.n(1200, 25000) * scale, use_model)
+    part_update(ctx, res, ctx.n(400, 8000) * scale)
     t2 = time.time()
     part_real_thermo(ctx, res, ctx.n(8, 150))
     t3 = time.time()
@@ -984,6 +1346,8 @@ def corr(ctx, oracle_only=False, scale=1):
     t4 = time.time()
     part_kwn_ternary(ctx, res, ctx.n(25, 200))
     part_diffusion(ctx, res, ctx.n(4, 40))
+    part_homogenization_real(ctx, res, 'FECRNI', steps=ctx.n(0, 3))
+    part_homogenization_real(ctx, res, 'NICRAL', steps=ctx.n(0, 3))
     t5 = time.time()
     res.monitored = list(MONITORED)
     res.extra['part_wall_s'] = dict(argsort_wrappers=round(t1 - t0, 1), steps=round(t2 - t1, 1), real_thermo=round(t3 - t2, 1),
@@ -1004,10 +1368,10 @@ def replay(ctx, entry):
         def __init__(s, v): s.v = v
         def getrandbits(s, k): return s.v
     ctx.driver_ok = False
-    if part in ('argsort', 'wrappers', 'steps') and 'seed' in c:
+    if part in ('argsort', 'wrappers', 'steps', 'diffusion-stub', 'update') and 'seed' in c:
         saved = ctx.rng; ctx.rng = OneSeed(int(c['seed']))
         try:
-            {'argsort': part_argsort, 'wrappers': part_wrappers, 'steps': part_steps}[part](ctx, res, 1, False)
+            {'argsort': part_argsort, 'wrappers': part_wrappers, 'steps': part_steps, 'diffusion-stub': part_diffusion_stub, 'update': part_update}[part](ctx, res, 1, False)
         finally:
             ctx.rng = saved
     elif part == 'real-thermo':
